@@ -165,11 +165,15 @@ def oneshot_main(args):
 
 def write_evidence(prop, tier, seed, level, coverage, wall, nviol,
                    assumptions):
-    os.makedirs(os.path.join(HERE, 'evidence'), exist_ok=True)
+    # (VERIF_EVIDENCE_DIR: sensitivity runs against deliberately broken
+    # trees must not overwrite the evidence of the real tree)
+    evdir = os.environ.get('VERIF_EVIDENCE_DIR') or os.path.join(HERE,
+                                                                 'evidence')
+    os.makedirs(evdir, exist_ok=True)
     doc = {'property_id': prop, 'tier': tier, 'seed': seed, 'level': level,
            'coverage': coverage, 'assumptions': assumptions,
            'wall_s': round(wall, 2), 'violations': nviol}
-    path = os.path.join(HERE, 'evidence', prop + '.json')
+    path = os.path.join(evdir, prop + '.json')
     tmp = path + '.tmp'
     from sim import core
     with open(tmp, 'w') as f:
